@@ -18,8 +18,9 @@
                   registered, which user calls were registered, what the handler does
    Result: outcome and allocation of checkInitialMessage, one record per message (dispatch,
    consumer outcome, bytes allocated with make), and how Connect ends. *)
-From Coq Require Import NArith List Bool.
+From Coq Require Import NArith ZArith List Bool.
 From LLRP Require Import Client.Stream Client.StreamProofs Client.Hostile Client.HostileProofs.
+From LLRP Require Import Client.DeviceHostile Client.DeviceHostileProofs.
 Import ListNotations.
 Open Scope N_scope.
 
@@ -145,6 +146,44 @@ Proof.
 Qed.
 Print Assumptions C10_serve_returns_error_on_eof_refuted.
 
+(* ------------------------------------------------------------------ the device service's goroutines *)
+(* The property's anchors name internal/driver/device.go: the goroutines started by the device's
+   handlers for ReaderEventNotification and ROAccessReport consume the client's messages OUTSIDE
+   handleGuarded, so a panic there on bytes a peer sent ends the whole service.  Model:
+   Client/DeviceHostile.v — [dev_run fl ms] feeds the decoded messages ms (event: UTCTimestamp /
+   Uptime; report: for every tag which of FirstSeenUTC / FirstSeenUptime / LastSeenUTC /
+   LastSeenUptime are present; or undecodable), each with the device's clock reading, to the two
+   handlers and processReport.  Flags: does the event handler STORE the readerStart it computes
+   for a Reader without UTC clock (not in the tree as found: l.readerStart is only ever read),
+   does processReport make sure FirstSeenUTC / LastSeenUTC are non-nil before assigning through
+   them (not in the tree as found).
+   For EVERY sequence of messages and clock readings: if readerStart is never stored, or
+   processReport guards the pointers, no goroutine panics and every decodable message is
+   published exactly once. *)
+Theorem C10_device_goroutines_never_panic :
+  forall fl : dflags,
+  stores_reader_start fl = false \/ process_guards_nil fl = true ->
+  forall ms : list (Z * dmsg),
+  ds_panicked (dev_run fl ms) = false /\
+  length (ds_published (dev_run fl ms)) = length (filter (fun nm => decodable (snd nm)) ms).
+Proof. intros fl H ms. split; [exact (dev_never_panics fl ms H)|exact (dev_run_published fl ms H)]. Qed.
+Print Assumptions C10_device_goroutines_never_panic.
+
+(* FALSE once readerStart is stored while processReport stays as it is — the safety of the tree
+   as found rests on the field never being assigned: a Reader without UTC clock (connection
+   event with Uptime 5 s and no UTCTimestamp), then a report whose only tag carries
+   FirstSeenUptime and no FirstSeenUTC: nil pointer dereference outside the panic guard.  The
+   same messages are harmless for the tree as found (both published). *)
+Theorem C10_device_goroutines_never_panic_refuted :
+  exists ms : list (Z * dmsg),
+  ds_panicked (dev_run (mkDFlags true false) ms) = true /\
+  ds_panicked (dev_run dflags_as_found ms) = false /\
+  length (ds_published (dev_run dflags_as_found ms)) = 2%nat.
+Proof.
+  exists wit_dev_msgs. split; [exact wit_dev_panics|exact wit_dev_as_found_survives].
+Qed.
+Print Assumptions C10_device_goroutines_never_panic_refuted.
+
 (* non-vacuity: a complete well-behaved session (first message, GetSupportedVersion and
    SetProtocolVersion replies, one SendMessage with its reply) ends with the EOF error and
    delivers the reply's 3 bytes; the repaired variants turn the three witnesses into errors *)
@@ -163,3 +202,17 @@ Example C10_example_repaired :
   s_end (session 4 wit_cfg flags_repaired wit_D true false 1 wit_env_idle
            (wit_ren ++ frame_bytes (mkFrame 0 1 4 9 []))) = SeErr.
 Proof. exact wit_repaired. Qed.
+
+(* non-vacuity of the device-level theorem: a Reader with UTC clock, then one without (stored:
+   the flags are "stores, guards"), reports with every kind of tag: nothing panics, the report
+   of the uptime-only tag comes out with both UTC stamps filled in from readerStart *)
+Local Open Scope Z_scope.
+Example C10_example_device :
+  let ms := [(1000, MEvent 1700000000 5); (2000, MEvent 0 7);
+             (3000, MReport [mkTag None (Some 8) None (Some 9); mkTag (Some 1) None (Some 2) None]);
+             (4000, MUndecodable)] in
+  let r := dev_run (mkDFlags true true) ms in
+  ds_panicked r = false /\ ds_reader_start r = Some 1993 /\
+  hd MUndecodable (ds_published r)
+  = MReport [mkTag (Some 2001) (Some 8) (Some 2002) (Some 9); mkTag (Some 1) None (Some 2) None].
+Proof. vm_compute. repeat split; reflexivity. Qed.
